@@ -17,7 +17,7 @@ import (
 
 func init() {
 	suites["ringseq"] = suite{
-		rule: "ring: every non-blocking call sequence over {put,putm,next,wait,res,fin} of length L (quick 6, thorough 8) on 2 slots exhaustively, incl. start counters at the uint32 wrap, then random sequences on 2^k slots k=1..6 with counters placed at 0 / near 2^32 / random; a snapshot line follows every call; non-trivial = distinct episode prefix that contains a put, a successful next and a successful res",
+		rule: "ring: every non-blocking call sequence over {put,putm,next,wait,res,fin} of length L (quick 6, thorough 8) on 2 slots exhaustively, incl. start counters at the uint32 wrap, then random sequences on 2^k slots k=1..6 with counters placed at 0 / near 2^32 / random; a snapshot line follows every call and an oracle line (!obs) has every real answer judged by the FIFO specification; non-trivial = distinct episode prefix that contains a put, a successful next and a successful res",
 		run:  func(c *Ctx) { runSeq(c, "ring") },
 		replay: func(c *Ctx, lines []string) {
 			s := &seqState{}
